@@ -35,6 +35,9 @@ def alphabet(rng, k=0, uniq=[500]):
         # application ids inside Vendor-Specific-Application-Id: shared, in the other role only, next to a plain one
         nodegen.cer(p, "", h, e, ",vauth=4"), nodegen.cer(p, "", h, e, ",vacct=4"), nodegen.cer(p, "", h, e, ",vacct=3"),
         nodegen.cer(p, "99", h, e, ",vauth=4+5"), nodegen.cer(p, "", h, e, ",vauth=99,vacct=98"),
+        # a second Host-IP-Address whose payload is not an address (family / length mismatch, truncated, unassigned family)
+        nodegen.cer(p, "4", h, e, ",ipbad=1"), nodegen.cer(p, "4", h, e, ",ipbad=2"),
+        nodegen.cer(p, "4", h, e, ",ipbad=3"), nodegen.cer("stranger.x", "4", h, e, ",ipbad=4"),
     ]
 
 
@@ -103,7 +106,18 @@ def oracle(line: str, obs: Obs):
                         want = 2001
                     else:
                         want = 5010
+                    bad_ip = "ipbad" in m["keys"]
                     if oh != cfg["host"].lower():
+                        # whatever the CER carries: the connection is ready after it exactly when the CEA the node sent says 2001
+                        got0 = kv(outs[0]) if outs else {}
+                        after0 = next((kv(l) for l in lines if l.startswith("CONN " + c + " ")), {})
+                        if (after0.get("state") in ("READY", "WAITDWA")) != (got0.get("rc") == "2001"):
+                            fails.append({"what": "connection readiness after the CER does not match the result of the CEA that was sent "
+                                                  "(ready iff 2001)", "event": ev, "real": str(after0),
+                                          "cea": outs[0] if outs else "(no CEA)"})
+                    if oh != cfg["host"].lower() and not bad_ip:
+                        # (a CER whose Host-IP-Address does not decode is outside the "specified outcome" clause: the node
+                        #  answers 5012 and does not become ready; only the rule above is applied to it)
                         got = kv(outs[0]) if outs else {}
                         la = "+".join(map(str, sorted(auth_ids)))
                         lc = "+".join(map(str, sorted(acct_ids)))
